@@ -566,19 +566,16 @@ class __Class(_pre.Pregex):
                             ranges1.pop(i)
                             i -= 1
                             break
+                        # Keep whatever lies before and after the subtracted range.
                         split_rng = list()
-                        if start_1 <= start_2 and end_1 <= end_2:
+                        if start_1 < start_2:
                             split_rng.append((start_1, chr(ord(start_2) - 1)))
-                        elif start_1 >= start_2 and end_1 >= end_2:
+                        if end_1 > end_2:
                             split_rng.append((chr(ord(end_2) + 1), end_1))
-                        else:
-                            split_rng.append((start_1, chr(ord(start_2) - 1)))
-                            split_rng.append((chr(ord(end_2) + 1), end_1))
-                        if len(split_rng) > 0:
-                            ranges1.pop(i)
-                            i -= 1
-                            ranges1 = ranges1 + split_rng
-                            break
+                        ranges1.pop(i)
+                        i -= 1
+                        ranges1 = ranges1 + split_rng
+                        break
                 i += 1
 
             ranges, chars = set(), set()
@@ -598,7 +595,15 @@ class __Class(_pre.Pregex):
         ranges1, chars1 = __class__.__extract_classes(pre1.__verbose, unescape=True)
         ranges2, chars2 = __class__.__extract_classes(pre2.__verbose, unescape=True)
 
-        # 2.a. Subtract ranges2 from chars1.
+        # 2.a. Subtract any characters in chars2 from ranges1 (this might produce characters).
+        ranges1, reduced_chars = subtract_ranges(ranges1, set(f"{c}-{c}" for c in chars2))
+        chars1 = chars1.union(reduced_chars)
+
+        # 2.b. Subtract ranges2 from ranges1 (this might produce characters).
+        ranges1, reduced_chars = subtract_ranges(ranges1, ranges2)
+        chars1 = chars1.union(reduced_chars)
+
+        # 2.c. Subtract ranges2 from chars1.
         splt_ranges2 = [__class__.__split_range(rng) for rng in ranges2]
         lst_chars1 = list(chars1)
 
@@ -612,16 +617,8 @@ class __Class(_pre.Pregex):
                 i += 1
         chars1 = set(lst_chars1)
 
-        # 2.b Subtract chars2 from chars1.
+        # 2.d. Subtract chars2 from chars1.
         chars1 = chars1.difference(chars2)
-
-        # 2.c. Subtract any characters in chars2 from ranges1.
-        ranges1, reduced_chars = subtract_ranges(ranges1, set(f"{c}-{c}" for c in chars2))
-        chars1 = chars1.union(reduced_chars)
-
-        # 2.d. Subtract ranges2 from ranges1.
-        ranges1, reduced_chars = subtract_ranges(ranges1, ranges2)
-        chars1 = chars1.union(reduced_chars)
 
         # 3. Union ranges and chars together while escaping them.
         result = __class__.__modify_classes(ranges1.union(chars1), escape=True)
